@@ -19,10 +19,13 @@ DEFAULT_STATUS_FILE: Final = ".dmypy.json"
 def receive(connection: IPCBase) -> Any:
     """Receive single JSON data frame from a connection.
 
-    Raise OSError if the data received is not valid JSON or if it is
-    not a dict.
+    Raise OSError if the data received is not valid UTF-8 or JSON or
+    if it is not a dict.
     """
-    bdata = connection.read()
+    try:
+        bdata = connection.read()
+    except UnicodeDecodeError as e:
+        raise OSError("Data received is not valid UTF-8") from e
     if not bdata:
         raise OSError("No data received")
     try:
